@@ -46,13 +46,20 @@ var (
 	c16Price = big.NewInt(1)
 	// F+1 / XFERF act on a FRESH EOA (never touched before the transaction),
 	// GSET writes storage of a FRESH contract address
-	c16Prims       = []string{"A+1", "A:=0", "B+1", "SET", "DEL", "EVT", "BTP", "STEP", "XFER", "F+1", "XFERF", "GSET"}
-	c16PrimsQuick3 = []string{"A:=0", "SET", "BTP", "STEP", "XFERF", "F+1"}
-	c16PrimsDeep4  = []string{"A:=0", "B+1", "SET", "EVT", "BTP", "STEP", "XFERF", "F+1"}
-	c16FreshEOA    = fixWallet(0xF7).Address()
-	c16FreshCx     = common.MustNewAddressFromString("cx00000000000000000000000000000000000f4e54")
-	c16Terms       = []string{"OK", "REVERT", "OOS", "INVALID", "OOB"}
-	c16InData      = int64(len(`{"method":"run"}`))
+	// XFERA: nested real plain TransferHandler frame payer -> hx-alias of the chain
+	// SCORE; it debits the payer and then fails (InvalidAddress), so the frame of
+	// the REAL handler must be rolled back
+	c16Prims       = []string{"A+1", "A:=0", "B+1", "SET", "DEL", "EVT", "BTP", "STEP", "XFER", "F+1", "XFERF", "GSET", "XFERA"}
+	c16PrimsQuick3 = []string{"A:=0", "BTP", "STEP", "XFERF", "F+1", "XFERA"}
+	c16PrimsDeep4  = []string{"A:=0", "XFERA", "SET", "BTP", "STEP", "XFERF", "F+1"}
+	// addresses aliasing an existing account of the other kind (accounts are keyed by the 20-byte body)
+	c16HxOfSystem   = common.MustNewAddressFromString("hx0000000000000000000000000000000000000000")
+	c16DeployedCx   = common.MustNewAddressFromString("cx00000000000000000000000000000000000d3b10") // made a contract account by the setup block
+	c16HxOfDeployed = common.MustNewAddressFromString("hx00000000000000000000000000000000000d3b10")
+	c16FreshEOA     = fixWallet(0xF7).Address()
+	c16FreshCx      = common.MustNewAddressFromString("cx00000000000000000000000000000000000f4e54")
+	c16Terms        = []string{"OK", "REVERT", "OOS", "INVALID", "OOB"}
+	c16InData       = int64(len(`{"method":"run"}`))
 )
 
 // small step limit: default + input + two contractCall units + a bit; the third
@@ -216,6 +223,10 @@ func (h *c16Handler) runSetup(cc contract.CallContext) error {
 	if _, err := as.SetValue([]byte(c16Key), []byte(c16OldValue)); err != nil {
 		return err
 	}
+	// a second contract account (what the deploy handler does first: InitContractAccount)
+	if !cc.GetAccountState(c16DeployedCx.ID()).InitContractAccount(c16God.Address()) {
+		return fmt.Errorf("contract account already initialised")
+	}
 	return nil
 }
 
@@ -281,12 +292,17 @@ func (h *c16Handler) run(cc contract.CallContext) error {
 				sc.stepFailed = true
 				return scoreresult.ErrOutOfStep
 			}
-		case "XFER", "XFERF":
+		case "XFER", "XFERF", "XFERA":
 			to := sc.other
 			if a == "XFERF" {
 				to = c16FreshEOA
+			} else if a == "XFERA" {
+				to = c16HxOfSystem
 			}
 			if st := h.xfer(cc, to, big.NewInt(1)); st == nil {
+				if a == "XFERA" {
+					sc.harnessErrs = append(sc.harnessErrs, "transfer to the hx alias of the chain SCORE succeeded")
+				}
 				h.eff = append(h.eff, c16Effect{a, pos})
 			} else {
 				sc.xferFail++
@@ -776,6 +792,13 @@ func (e *c16Env) check(c *c16Ctx, cs *c16Case, o *c16Obs) {
 	if o.XferFail > 0 {
 		e.count("nested-real-transfer-failed")
 	}
+	if scriptHas(cs.Script, "XFERA") {
+		if failed {
+			e.count("real-transfer-frame-failed-after-debit,tx-failed")
+		} else {
+			e.count("real-transfer-frame-failed-after-debit,tx-succeeded")
+		}
+	}
 	if !failed && (hasKind(surviving, "XFER") || hasKind(surviving, "XFERF")) {
 		e.count("nested-real-transfer-succeeded")
 	}
@@ -843,7 +866,7 @@ func (sh *c16Shape) build(prims []int, alphabet []string) *c16Script {
 func TestVerifC16(t *testing.T) {
 	r := ev.Start(t, "C16", "exploration")
 	maxT := r.Pick(3, 4)
-	r.Rule(fmt.Sprintf("family 1 (scripted): all scripts with <= %d primitive actions in total from {A+1,A:=0,B+1,SET,DEL,EVT,BTP,STEP,XFER(nested real TransferHandler frame payer->existing B),F+1(direct credit of a FRESH EOA),XFERF(nested real transfer payer->the FRESH EOA),GSET(storage write on a FRESH contract address)} laid out as outer-before / one optional nested cc.Call frame / outer-after (every split), nested and outer terminator each from {OK,REVERT(32),OOS,INVALID,OOB}, on 4 variants {payer balance = stepLimit*price | large} x {step limit large | small}; total = 4 (thorough only) on the two opposite variants over {A:=0,B+1,SET,EVT,BTP,STEP,XFERF,F+1}; quick: total <= 1 on all variants, total = 2 on the two opposite variants, total = 3 on the first variant over {A:=0,SET,BTP,STEP,XFERF,F+1}. Family 2 (no scripted handler): real v3 transactions through the real handlers that fail after a partial effect, see real_tx_family in coverage. A case = (variant, script) or (variant, block); every case is executed by a real transition", maxT))
+	r.Rule(fmt.Sprintf("family 1 (scripted): all scripts with <= %d primitive actions in total from {A+1,A:=0,B+1,SET,DEL,EVT,BTP,STEP,XFER(nested real TransferHandler frame payer->existing B),F+1(direct credit of a FRESH EOA),XFERF(nested real transfer payer->the FRESH EOA),GSET(storage write on a FRESH contract address),XFERA(nested real plain TransferHandler frame payer->hx alias of the chain SCORE: debits, then fails InvalidAddress)} laid out as outer-before / one optional nested cc.Call frame / outer-after (every split), nested and outer terminator each from {OK,REVERT(32),OOS,INVALID,OOB}, on 4 variants {payer balance = stepLimit*price | large} x {step limit large | small}; total = 4 (thorough only) on the two opposite variants over {A:=0,XFERA,SET,BTP,STEP,XFERF,F+1}; quick: total <= 1 on all variants, total = 2 on the two opposite variants, total = 3 on the first variant over {A:=0,BTP,STEP,XFERF,F+1,XFERA}. Family 2 (no scripted handler): real v3 transactions through the real handlers that fail after a partial effect, see real_tx_family in coverage. A case = (variant, script) or (variant, block); every case is executed by a real transition", maxT))
 	r.Assume("the designated contract address runs a scripted contract.SyncContractHandler installed through a ContractManager wrapper (FixtureConfig.NewPlatform); everything else is real",
 		"reference for the expected world: the same machinery executing, in ONE frame, exactly the effects of the frames that returned success (metamorphic); payer/treasury balances are compared explicitly and zeroed before hashing",
 		"which frames failed is known to the harness because its own handler returns the errors; step accounting, frame snapshot/reset, receipts are goloop's",
@@ -1015,6 +1038,7 @@ func TestVerifC16(t *testing.T) {
 	env.classes.Range(func(k, v interface{}) bool { classes[k.(string)] = atomic.LoadInt64(v.(*int64)); return true })
 	r.Set("outcome_classes", classes)
 	for _, need := range []string{"success", "nested-failed-outer-succeeded", "nested-succeeded-outer-failed", "nested-real-transfer-failed", "nested-real-transfer-succeeded",
+		"real-transfer-frame-failed-after-debit,tx-failed", "real-transfer-frame-failed-after-debit,tx-succeeded",
 		"fresh-account-touched-then-tx-failed", "fresh-account-effect-survived", "fresh-account-touched-in-rolled-back-frame-of-successful-tx",
 		"ran-out-of-steps-in-place", "fee-rollback-after-successful-script",
 		fmt.Sprintf("failed:status-%d", module.StatusReverted), fmt.Sprintf("failed:status-%d", module.StatusOutOfStep),
@@ -1029,11 +1053,15 @@ func TestVerifC16(t *testing.T) {
 	}
 	r.Sanity(classes[fmt.Sprintf("real:failed:status-%d->freshEOA,value=true", module.StatusContractNotFound)] > 0,
 		"family 2: no call-with-value to a fresh EOA failed with ContractNotFound (%v)", classes)
+	for _, alias := range []string{"hxAliasOfChainSCORE", "hxAliasOfContractAccount2", "cxAliasOfExistingEOA"} {
+		k := fmt.Sprintf("real:failed:status-%d->%s,value=true", module.StatusInvalidParameter, alias)
+		r.Sanity(classes[k] > 0, "family 2: no value transfer to %s failed with InvalidParameter after the debit (%v)", alias, classes)
+	}
 	r.Sanity(classes["real:success->freshEOA"] > 0 && classes["real:success->existingEOA"] > 0, "family 2: no successful transfer (%v)", classes)
 	r.Set("real_tx_family", map[string]interface{}{
 		"cases":                          atomic.LoadInt64(&env.realCases),
-		"rule":                           "sender = payer (variants payer-large / payer owns exactly 2M); recipient in {fresh EOA, existing EOA, fresh cx address without contract, chain SCORE cx0}; dataType call x method {foo,getRevision} x value {0,1,5} x stepLimit {2M, default+input}; plain transfer and message x value {1, 2^90} x stepLimit {min-1 (message only), min, 2M}; blocks of one transaction, and blocks of two (thorough: all ordered pairs; quick: pairs of call transactions with the 2M limit)",
-		"oracle":                         "per receipt: failed => no logs / messages / empty bloom; balances of the whole closed universe {payer, existing EOA, fresh EOA, fresh cx, chain SCORE, scripted cx, treasury, god} = did-nothing block adjusted by fee (always) and value (only on success); a fresh account not credited by a successful transaction must not exist; full state hash with the universe's balances zeroed and BTP digest equal those of the did-nothing (empty) block",
+		"rule":                           "sender = payer (variants payer-large / payer owns exactly 2M); recipient in {fresh EOA, existing EOA, fresh cx address without contract, chain SCORE cx0, a second contract account, hx-alias of the chain SCORE (hx00..00), hx-alias of the second contract account, cx-alias of the funded existing EOA}; dataType call x method {foo,getRevision} x value {0,1,5} x stepLimit {2M, default+input}; plain transfer and message x value {0, 1, 2^90 (> balance)} x stepLimit {min-1 (message only), min, 2M}; blocks of one transaction, and blocks of two (thorough: all ordered pairs; quick: pairs over {call transactions, plain transfers of 1} with the 2M limit)",
+		"oracle":                         "per receipt: failed => no logs / messages / empty bloom; balances of the whole closed universe {payer, existing EOA, fresh EOA, fresh cx, chain SCORE, second contract account, scripted cx, treasury, god} (recipients resolved by account id, so aliases map to the account they share) = did-nothing block adjusted by fee (always) and value (only on success); a fresh account not credited by a successful transaction must not exist; full state hash with the universe's balances zeroed and BTP digest equal those of the did-nothing (empty) block",
 		"failed_with_value_to_fresh_EOA": withFresh,
 	})
 	r.Set("max_total_actions", maxT)
